@@ -118,6 +118,14 @@ func negotiator(f func(*Session, *StreamConfig) StreamConfig) Negotiator {
 		// For more information see the internal/wskey package.
 		wsCtx := ctx.Value(wskey.Key{})
 		websocket := wsCtx != nil
+		if websocket {
+			// The websocket package adds the key to the context inside of its
+			// negotiator, so this is the first place where the session can learn
+			// that it uses the WebSocket subprotocol; without this the stream
+			// reader used after negotiation would not recognize the framing
+			// elements (<open/> and <close/>).
+			s.ws = true
+		}
 
 		c := s.Conn()
 		// If the session is not already using a tee conn, but we're configured to
